@@ -101,6 +101,15 @@ func (c *vconn) WriteBatch(bufs [][]byte, addrs []netip.AddrPort) (int, error) {
 	}
 	return n, nil
 }
+// takeAll drains every routine's socket of a node.
+func (n *vnode) takeOut() []vpkt {
+	var o []vpkt
+	for _, c := range n.conns {
+		o = append(o, c.take()...)
+	}
+	return o
+}
+
 func (c *vconn) take() []vpkt {
 	c.mu.Lock()
 	defer c.mu.Unlock()
@@ -131,6 +140,7 @@ func (q *vqueue) Write(p []byte) (int, error) {
 type vtun struct {
 	nets   []netip.Prefix
 	q      *vqueue
+	qs     []*vqueue // all queues (qs[0] == q)
 	closed bool
 	routes func(netip.Addr) routing.Gateways
 }
@@ -139,7 +149,13 @@ func (t *vtun) Close() error              { t.closed = true; return nil }
 func (t *vtun) Activate() error           { return nil }
 func (t *vtun) Networks() []netip.Prefix  { return t.nets }
 func (t *vtun) Name() string              { return "vtun" }
-func (t *vtun) Queues(int) ([]tio.Queue, error) { return []tio.Queue{t.q}, nil }
+func (t *vtun) Queues(int) ([]tio.Queue, error) {
+	out := make([]tio.Queue, len(t.qs))
+	for i, q := range t.qs {
+		out[i] = q
+	}
+	return out, nil
+}
 func (t *vtun) RoutesFor(a netip.Addr) routing.Gateways {
 	if t.routes != nil {
 		return t.routes(a)
@@ -147,10 +163,13 @@ func (t *vtun) RoutesFor(a netip.Addr) routing.Gateways {
 	return routing.Gateways{}
 }
 func (t *vtun) take() [][]byte {
-	t.q.mu.Lock()
-	defer t.q.mu.Unlock()
-	o := t.q.got
-	t.q.got = nil
+	var o [][]byte
+	for _, q := range t.qs {
+		q.mu.Lock()
+		o = append(o, q.got...)
+		q.got = nil
+		q.mu.Unlock()
+	}
 	return o
 }
 
@@ -218,6 +237,7 @@ type vnodeSpec struct {
 	Udp       string // "192.0.2.1:4242"
 	Version   cert.Version
 	Overrides m // merged over the default config
+	Routines  int // number of rx/tx routines (queues, sockets, rx contexts); default 1
 }
 
 type vnode struct {
@@ -230,8 +250,10 @@ type vnode struct {
 	lh     *LightHouse
 	cm     *connectionManager
 	conn   *vconn
+	conns  []*vconn // one per routine (conns[0] == conn)
 	tun    *vtun
 	rxc    *rxContext
+	rxcs   []*rxContext // one per routine (rxcs[0] == rxc)
 	sb     *batch.SendBatch
 	fwp    *firewall.ParsedPacket
 	nb     []byte
@@ -310,8 +332,17 @@ func vNewNode(tb testing.TB, spec vnodeSpec) *vnode {
 	if err != nil {
 		tb.Fatalf("firewall: %v", err)
 	}
-	n.tun = &vtun{nets: pki.getCertState().myVpnNetworks, q: &vqueue{}}
-	n.conn = &vconn{addr: udpAddr}
+	routines := spec.Routines
+	if routines < 1 {
+		routines = 1
+	}
+	n.tun = &vtun{nets: pki.getCertState().myVpnNetworks}
+	for i := 0; i < routines; i++ {
+		n.tun.qs = append(n.tun.qs, &vqueue{})
+		n.conns = append(n.conns, &vconn{addr: udpAddr})
+	}
+	n.tun.q = n.tun.qs[0]
+	n.conn = n.conns[0]
 	hostMap := NewHostMapFromConfig(l, c)
 	punchy := NewPunchyFromConfig(l, c, n.conn)
 	connManager := newConnectionManagerFromConfig(l, c, hostMap, punchy)
@@ -365,7 +396,7 @@ func vNewNode(tb testing.TB, spec vnodeSpec) *vnode {
 		reQueryWait:           c.GetDuration("timers.requery_wait_duration", defaultReQueryWait),
 		DropLocalBroadcast:    c.GetBool("tun.drop_local_broadcast", false),
 		DropMulticast:         c.GetBool("tun.drop_multicast", false),
-		routines:              1,
+		routines:              routines,
 		MessageMetrics:        messageMetrics,
 		version:               "verif",
 		relayManager:          NewRelayManager(ctx, l, hostMap, c),
@@ -377,7 +408,10 @@ func vNewNode(tb testing.TB, spec vnodeSpec) *vnode {
 	if err != nil {
 		tb.Fatalf("interface: %v", err)
 	}
-	ifce.writers = []udp.Conn{n.conn}
+	ifce.writers = make([]udp.Conn, routines)
+	for i := range n.conns {
+		ifce.writers[i] = n.conns[i]
+	}
 	lightHouse.ifce = ifce
 	ifce.RegisterConfigChangeCallbacks(c)
 	ifce.reloadDisconnectInvalid(c)
@@ -392,7 +426,10 @@ func vNewNode(tb testing.TB, spec vnodeSpec) *vnode {
 		tb.Fatalf("activate: %v", err)
 	}
 	n.f, n.hm, n.lh, n.cm = ifce, hm, lightHouse, connManager
-	n.rxc = newRxContext(ifce, 0)
+	for i := 0; i < routines; i++ {
+		n.rxcs = append(n.rxcs, newRxContext(ifce, i))
+	}
+	n.rxc = n.rxcs[0]
 	n.sb = batch.NewSendBatch(n.conn, batch.SendBatchCap, batch.SendBatchCap*(udp.MTU+32))
 	n.fwp = &firewall.ParsedPacket{}
 	n.nb = make([]byte, 12, 12)
@@ -462,6 +499,13 @@ func (n *vnode) deliverBatch(pkts []vpkt) {
 	}
 	n.flushRx()
 	n.settle()
+}
+
+// deliverOn is deliver on routine q (its own rx context and tun batcher), without running the pending worker jobs.
+func (n *vnode) deliverOn(q int, from netip.AddrPort, data []byte) {
+	n.f.readOutsidePackets(ViaSender{UdpAddr: from}, append([]byte(nil), data...), n.rxcs[q])
+	_ = n.f.batchers[q].Flush()
+	clear(n.rxcs[q].hostmapCache)
 }
 
 func (n *vnode) flushRx() {
@@ -598,7 +642,7 @@ func (v *vnet) node(name string) *vnode {
 // collect moves everything the nodes wrote since the last call into the in-flight pool / tun logs.
 func (v *vnet) collect() {
 	for _, n := range v.nodes {
-		for _, p := range n.conn.take() {
+		for _, p := range n.takeOut() {
 			v.inflight = append(v.inflight, p)
 			v.wire = append(v.wire, p.Data)
 		}
